@@ -90,6 +90,13 @@ def fieldNameOf (pat : TokInfo F) : Option String :=
   | some (.field f) => some f.name
   | _ => none
 
+/-- does the line token info `tok` (whose token is `t`) match the pattern position `p`?  A variable
+    is compared through the value it holds. -/
+def sameTok (vs : Vars F) (p tok : TokInfo F) (t : Tok F) : Bool :=
+  match t with
+  | .var n => (match vs.get? n with | some info => variableCompare p info.data | none => variableCompare p .none)
+  | _ => infoEq tok p
+
 /-- result of `find_match`: did the pattern complete, start index, end index (exclusive), fields -/
 structure Match (F : Type) where
   found : Bool
@@ -114,9 +121,7 @@ def findMatch (vs : Vars F) (pat : List (TokInfo F)) (infos : List (TokInfo F)) 
           match pat[ruleIdx]? with
           | none => ⟨false, start, target, fields⟩   -- empty pattern: the implementation indexes out of bounds
           | some p =>
-            let same : Bool := match t with
-              | .var n => (match vs.get? n with | some info => variableCompare p info.data | none => variableCompare p .none)
-              | _ => infoEq tok p
+            let same : Bool := sameTok vs p tok t
             if same then
               let fields := match fieldNameOf p with | some k => fields.insert k tok | none => fields
               let ruleIdx := ruleIdx + 1
